@@ -1,11 +1,12 @@
 // Deterministic replacement for std::chrono::system_clock::now(), linked with
 // -Wl,--wrap=_ZNSt6chrono3_V212system_clock3nowEv so that the clock-seeded RNGs of the
 // repository (poisson sampling, cell property draws) are driven by VERIF seeds.
+// The counter is advanced atomically (the repository calls now() from parallel regions).
 #include <chrono>
 #include <cstdint>
 int64_t verif_clock_ns = 1700000000000000000LL;
 int64_t verif_clock_step = 1000003;
 extern "C" std::chrono::system_clock::time_point __wrap__ZNSt6chrono3_V212system_clock3nowEv() {
-    verif_clock_ns += verif_clock_step;
-    return std::chrono::system_clock::time_point(std::chrono::duration_cast<std::chrono::system_clock::duration>(std::chrono::nanoseconds(verif_clock_ns)));
+    int64_t v = __atomic_add_fetch(&verif_clock_ns, verif_clock_step, __ATOMIC_RELAXED);
+    return std::chrono::system_clock::time_point(std::chrono::duration_cast<std::chrono::system_clock::duration>(std::chrono::nanoseconds(v)));
 }
